@@ -96,7 +96,7 @@ Print Assumptions C05_rpc_timeout.
 Print Assumptions C05_rpc_next_request_fresh_id.
 
 (* ---- timeout precedence is the source's: Channel.GetTimeout translated on this run ---- *)
-From Scrapli Require Import DecideLang GeneratedSkel Decide.
+From Scrapli Require Import DecideLang GeneratedSkel DecideGT.
 
 Theorem C05_get_timeout_is_source : forall ops t, gt_run ops t = Some (get_timeout ops t).
 Proof. exact get_timeout_is_source. Qed.
@@ -110,7 +110,7 @@ Print Assumptions C05_get_timeout_is_source.
    interim patterns) unless eager, result; a deadline at a read yields the timeout error, a loss
    the transport's own error, and nothing is invoked after the failing read — for EVERY
    configuration, input, options and sequence of read outcomes. *)
-From Scrapli Require Import DecideLang GeneratedSkel InteractiveSrcDefs ChannelSrc.
+From Scrapli Require Import DecideLang GeneratedSkel InteractiveSrcDefs SendInputSrc.
 Theorem C05_send_input_is_source :
   sin_table_ok = true
   /\ forall cfg input o rds,
@@ -119,3 +119,13 @@ Theorem C05_send_input_is_source :
           snd (sin_expected (o_exact o) (o_eager o) (is_nil (o_interim o)) (fail_src o input rds))).
 Proof. exact send_input_is_source. Qed.
 Print Assumptions C05_send_input_is_source.
+
+(* every test that the translated functions of this property make is one the environments of their
+   ties were written for: a test that is new in the source breaks this (an unknown equality would
+   otherwise evaluate to false without notice) *)
+From Scrapli Require Import DecideLang GeneratedSkel DecideGT SendInputSrc.
+Theorem C05_source_tests_known :
+  tests_known get_timeout_code get_timeout_known = true /\
+  tests_known send_input_code send_input_known = true.
+Proof. split; [exact get_timeout_tests_known | exact send_input_tests_known]. Qed.
+Print Assumptions C05_source_tests_known.
